@@ -14,6 +14,7 @@ import (
 	"reflect"
 	"sort"
 	"strings"
+	"time"
 
 	oerrors "github.com/go-openapi/errors"
 	"github.com/go-openapi/runtime"
@@ -32,6 +33,7 @@ func init() {
 		Rule: "requirement structures (global or per-operation; 1..4 alternatives of 1..3 of the schemes S1..S5 with scopes; the empty alternative at any position; some schemes without a registered authenticator; in a quarter of the APIs one or two alternatives also name a scheme U1/U2 that is NO security definition of the document (an AND of declared and undeclared schemes, now and then an alternative of its own; with or without an authenticator registered under that name; never scripted to accept) and is therefore never satisfied; in a quarter the definitions are a mix of oauth2, apiKey and basic; authorizer absent/accepting/denying with a plain error/denying with an errors.Error of code 401, 403, 409 or 503/denying with a plain error that wraps an errors.Error; a quarter of the APIs hold 2..3 operations (or the API-wide list and operations) whose requirements are different groupings of ONE list of 2..4 (scheme, scopes) entries, e.g. A AND B next to A OR B; methods POST/PUT/PATCH/DELETE/GET, static paths and paths with a parameter) " +
 			"x per-scheme outcome vectors read by scripted authenticators from request headers (n=not applicable, a=accept with principal, g:<scopes>=accept only requirements whose scopes are all granted else reject 403, z=accept with nil principal, r=reject with an errors.Error of code 401/403/418, with a 403 that still names the principal, or with a plain sentinel error that is no errors.Error and must come back as itself (errors.Is) from Context.Authorize and the exported Authenticate methods and as its text through the handler; all 4^n vectors for n<=4 schemes, sampled beyond) " +
 			"x invalid/valid query parameter x body behind a counting consumer x (a quarter of the requests) something else wrong: unconsumed or unparsable Content-Type, unservable Accept, undecodable body; every structure is rebuilt several times (in-alternative order and the order in which the router visits the operations are map orders fixed at build) and driven through the full handler, through the same pipeline behind a middleware that already asked Context.Authorize, through Context.Authorize (which on success is asked again on the returned request and once more after ResetAuth, and after a refusal is asked again with the same request) and, on one build in six, through the exported RouteAuthenticators.Authenticate (the OR) and every RouteAuthenticator.Authenticate (one AND) on fresh matched routes; in a third of the structures the schemes yield principals that are not non-empty strings (*struct, map, the empty string, a typed-nil pointer), compared by identity. An anonymous admission must have consulted a scheme of every non-empty alternative whose schemes are all declared and registered (how many consultations that takes is not judged). The authorizer must be shown a request with the served method and path; an admitted request that fails behind authentication (400/406/415/422) must reach the API's error responder carrying the warranted principal and the scopes of its alternative. A declared request for which RouteInfo finds no route is a violation, not a skip; an asking middleware that is handed no matched route looks the route up itself (classed). Probes (classed, never judged): per (structure, outcome vector) whether the builds of the structure gave different verdicts (probe:order-dependent-anonymous-admission: admitted in some builds, refused in others, with an empty alternative), whether refusal statuses differ between builds, whether the scopes slices handed to authenticators and askers are shared with later requests. " +
+			"Second sub-workload (one more API after every fifth, own PRNG stream): some of the registered schemes the requirements name are served by the library's own security.APIKeyAuth[Ctx] (in query, in header; parameter names with _, space, +, %, [], non-ASCII letters; header names defined in any letter case), BasicAuth[Ctx] and BearerAuth[Ctx] (at most one of each per API) behind a wrapper that only writes the call log; their callbacks accept, accept without principal or reject (401/403/418/with principal/plain error/by granted scopes) by the VALUE of the credential they are shown, and a text that is no credential of the scheme is rejected with 401; the other schemes stay scripted. The requests spell the credentials in the ways HTTP allows: query parameter names and values in the canonical escaping, with %20 or + for a space, with bytes percent-encoded that need not be (upper and lower case hex), wholly percent-encoded, reserved characters that may stand for themselves left alone, values that hold +, &, =, %, %41, ;, non-ASCII; the parameter twice with one value; parameters whose names or values only contain the name; the parameter before and behind the operation's own; header names in any letter case; Basic in any letter case, now and then with a wrong password; the bearer token in the Authorization header or as access_token in the query; credentials of schemes the operation does not name. The outcome of such a scheme for a request is read off the request as sent (query decoded by net/url, header by canonical name, Basic from base64), never from the library; the oracle is the same. " +
 			"Oracle over the observed authenticator call log. non-trivial = (structure hash, operation, outcome vector, observed call order) with >= 2 schemes in the operation's requirements or an empty alternative; distinct by that tuple",
 		Assumptions: []string{
 			"a scheme that would reject but was never consulted (an earlier scheme of the same alternative was not applicable, or an earlier alternative admitted) has rejected nothing; so for [{S1,S2},{}] with S1 not applicable and S2 rejecting both the anonymous admission (S1 asked first) and S2's error (S2 asked first) satisfy the statement, and which is given depends on a map order fixed when the router is built: counted under probe:order-dependent-anonymous-admission, not judged",
@@ -43,11 +45,15 @@ func init() {
 			"what an admitted request with an unconsumed/unparsable Content-Type, an unservable Accept or an undecodable body is answered (415, 406, 400, 422) is judged by C06/C07/C03, not here; a refusal never carries one of these codes",
 			"the scripted authorizer decides independently of the principal; the principal it is shown is judged",
 			"a principal is non-nil when the interface value the authenticator returned is not nil: the empty string and a typed-nil pointer are principals",
+			"real authenticators: a request that carries several different values for one credential, an empty value, two Authorization headers, a bearer token both in the header and in the query, or Basic credentials that are no base64 user:password pair is not generated and not judged (what 'the' credential is then is not stated); the auth-scheme of the Authorization header is case-insensitive (RFC 7235) - other letter cases of Bearer are judged on replay but left out of the generator (TRIAGE-PENDING in real.go); more than one space behind the auth-scheme and bearer tokens in a form body are not driven",
 			"of the exported Authenticate methods only admissions (applies, principal, no error), the error of a refusal and the alternative recorded for an admission are judged; the value of applies on a refusal and what the matched route records after a refusal are not",
 		},
 		MinNontrivial: 300,
-		Run:           run,
-		Replay:        replay,
+		// watchdog only (firing = inconclusive, never a verdict): a thorough shard needs some 35 minutes of CPU, and
+		// the default of one hour fires when the 16 shards share the machine with another thorough run
+		ThorTimeout: 150 * time.Minute,
+		Run:         run,
+		Replay:      replay,
 	})
 }
 
@@ -61,6 +67,9 @@ type Request struct {
 	// operation does not consume), ct-malformed (unparsable Content-Type), accept-text (an Accept the
 	// operation cannot serve), bad-json (a body the consumer cannot decode). ct-* and bad-json send a body.
 	Variant string `json:"variant,omitempty"`
+	// Wire: how the credentials of the schemes served by the library's own authenticators (Case.RealAuth) are
+	// spelled in this request; the outcomes of those schemes are read off the request, not from Outcomes
+	Wire *Wire `json:"wire,omitempty"`
 }
 
 // Case is a requirement structure, its registrations and the requests sent to it.
@@ -77,6 +86,10 @@ type Case struct {
 	// PrincipalKinds: what kind of value a scheme's authenticator yields as principal (absent = the string
 	// "P:<scheme>"): ptr (*struct), map (map[string]string), empty (the string ""), typednil (a nil *struct)
 	PrincipalKinds map[string]string `json:"principalKinds,omitempty"`
+	// RealAuth: the registered schemes that are served by one of the library's authenticators instead of a scripted
+	// one: key | key-ctx (security.APIKeyAuth[Ctx] with the name and place of the scheme's definition) | basic |
+	// basic-ctx | bearer | bearer-ctx. Their callbacks decide by the value of the credential (real.go).
+	RealAuth map[string]string `json:"realAuth,omitempty"`
 }
 
 // who is a principal of struct kind.
@@ -183,6 +196,14 @@ func build(c *Case) (*sut, error) {
 	}))
 	for _, name := range c.Registered {
 		name := name
+		if kind, real := c.RealAuth[name]; real {
+			a := s.realAuthenticator(name, kind, c.Desc.SecDefs[name])
+			if a == nil {
+				return nil, fmt.Errorf("unknown kind of real authenticator %q", kind)
+			}
+			api.RegisterAuth(name, a)
+			continue
+		}
 		api.RegisterAuth(name, security.ScopedAuthenticator(func(sr *security.ScopedAuthRequest) (bool, interface{}, error) {
 			s.calls = append(s.calls, call{name, append([]string(nil), sr.RequiredScopes...)})
 			out := sr.Request.Header.Get("X-Out-" + name)
@@ -258,12 +279,18 @@ func build(c *Case) (*sut, error) {
 	return s, nil
 }
 
-func (s *sut) request(rq *Request) *http.Request {
-	op := s.c.Desc.Ops[rq.Op]
+func (s *sut) request(rq *Request) *http.Request { return buildRequest(s.c, rq) }
+
+func buildRequest(c *Case, rq *Request) *http.Request {
+	op := c.Desc.Ops[rq.Op]
 	path := strings.ReplaceAll(op.Template, "{id}", "v1")
-	target := path + "?q=7"
+	qfrag := "q=7"
 	if rq.BadQuery {
-		target = path + "?q=notanumber"
+		qfrag = "q=notanumber"
+	}
+	target := path + "?" + qfrag
+	if rq.Wire != nil {
+		target = rq.Wire.target(path, qfrag)
 	}
 	var body io.Reader
 	if rq.hasBody() {
@@ -290,7 +317,15 @@ func (s *sut) request(rq *Request) *http.Request {
 		r.Header.Set("Accept", "application/json")
 	}
 	for k, v := range rq.Outcomes {
+		if _, real := c.RealAuth[k]; real {
+			continue // read off the credentials
+		}
 		r.Header.Set("X-Out-"+k, v)
+	}
+	if rq.Wire != nil {
+		for _, h := range rq.Wire.Headers {
+			r.Header.Add(h[0], h[1]) // the server's parser keys the header by its canonical name, as Add does
+		}
 	}
 	return r
 }
@@ -388,9 +423,20 @@ func runCase(m *mon.M, c *Case) {
 		pk, _ := json.Marshal(c.PrincipalKinds)
 		b = append(b, pk...)
 	}
+	if len(c.RealAuth) > 0 {
+		ra, _ := json.Marshal(c.RealAuth)
+		b = append(b, ra...)
+	}
 	sh := fmt.Sprintf("%x", mon.Hash64(string(b)))
 	reg := usable(c)
 	across := newAcross(len(c.Requests))
+	// the requests as judged: the outcome vector completed by what the request carries for the real schemes
+	effs := make([]Request, len(c.Requests))
+	wireFeats := make([]string, len(c.Requests))
+	judged := make([]bool, len(c.Requests))
+	for ri := range c.Requests {
+		effs[ri], wireFeats[ri], judged[ri] = effective(m, c, &c.Requests[ri])
+	}
 	var last *sut
 	for bi := 0; bi < builds; bi++ {
 		s, err := build(c)
@@ -400,8 +446,11 @@ func runCase(m *mon.M, c *Case) {
 		}
 		last = s
 		for ri := range c.Requests {
-			rq := &c.Requests[ri]
-			one := &Case{Desc: c.Desc, Registered: c.Registered, Authorizer: c.Authorizer, Requests: []Request{*rq}, Builds: 6, PrincipalKinds: c.PrincipalKinds}
+			if !judged[ri] {
+				continue
+			}
+			rq := &effs[ri]
+			one := &Case{Desc: c.Desc, Registered: c.Registered, Authorizer: c.Authorizer, Requests: []Request{c.Requests[ri]}, Builds: 6, PrincipalKinds: c.PrincipalKinds, RealAuth: c.RealAuth}
 			op := &c.Desc.Ops[rq.Op]
 			alts := alternatives(&c.Desc, op)
 			ref := judgeRef(c, alts, rq.Outcomes)
@@ -414,6 +463,10 @@ func runCase(m *mon.M, c *Case) {
 			}
 			if rq.Variant != "" {
 				feat += "+" + rq.Variant
+			}
+			feat += wireFeats[ri]
+			if bi == 0 && len(c.RealAuth) > 0 {
+				realClasses(m, c, rq, wireFeats[ri])
 			}
 
 			// ---- entry point 1: the full handler ----
@@ -464,7 +517,7 @@ func runCase(m *mon.M, c *Case) {
 				passed := passedAuthentication(s, recB.Code)
 				if passed && (!warranted || denies) {
 					m.Violate("admitted-after-an-earlier-asker-was-refused/"+feat, fmt.Sprintf("op=%s alternatives=%v registered=%v authorizer=%s outcomes=%v calls=%s: a middleware called Context.Authorize (refused) and passed the request on: status %d, handler ran %d times, consumer %d",
-						c.Desc.Ops[rq.Op].ID, alts, c.Registered, c.Authorizer, rq.Outcomes, callOrder(s.calls), recB.Code, s.handlerRan, s.consumed), one)
+						c.Desc.Ops[rq.Op].ID, alts, c.Registered, c.Authorizer, rq.Outcomes, callOrder(s.calls), recB.Code, s.handlerRan, s.consumed)+wireNote(c, rq), one)
 					continue
 				}
 				if s.handlerRan > 1 {
@@ -565,7 +618,14 @@ func runCase(m *mon.M, c *Case) {
 	}
 	across.report(m, c, builds)
 	if last != nil {
-		scribbleProbe(m, c, last)
+		ec := *c
+		ec.Requests = nil
+		for ri := range effs {
+			if judged[ri] {
+				ec.Requests = append(ec.Requests, effs[ri])
+			}
+		}
+		scribbleProbe(m, &ec, last)
 	}
 	if m.WantSample() {
 		sc := *c
@@ -696,7 +756,7 @@ func judgeHandler(m *mon.M, c *Case, s *sut, rq *Request, alts []gen.SecReq, ref
 	body := rec.Body.String()
 	desc := func() string {
 		return fmt.Sprintf("op=%s alternatives=%v registered=%v authorizer=%s outcomes=%v calls=%s authorizer-calls=%v -> status %d body %.100q handler=%d consumer=%d",
-			c.Desc.Ops[rq.Op].ID, alts, c.Registered, c.Authorizer, rq.Outcomes, callOrder(s.calls), s.authzCalls, status, body, s.handlerRan, s.consumed)
+			c.Desc.Ops[rq.Op].ID, alts, c.Registered, c.Authorizer, rq.Outcomes, callOrder(s.calls), s.authzCalls, status, body, s.handlerRan, s.consumed) + wireNote(c, rq)
 	}
 	if len(alts) == 0 {
 		// no security declared: plain pipeline
@@ -894,7 +954,7 @@ func judgeAuthorize(m *mon.M, kind string, c *Case, s *sut, rq *Request, alts []
 			ctxP = middleware.SecurityPrincipalFrom(rq2)
 		}
 		return fmt.Sprintf(kind+": op=%s alternatives=%v registered=%v authorizer=%s outcomes=%v calls=%s -> principal=%v ctxPrincipal=%v scopes=%v err=%v",
-			c.Desc.Ops[rq.Op].ID, alts, c.Registered, c.Authorizer, rq.Outcomes, callOrder(s.calls), usr, ctxP, scopes, aerr)
+			c.Desc.Ops[rq.Op].ID, alts, c.Registered, c.Authorizer, rq.Outcomes, callOrder(s.calls), usr, ctxP, scopes, aerr) + wireNote(c, rq)
 	}
 	if len(alts) == 0 {
 		if aerr != nil || usr != nil {
@@ -1014,7 +1074,7 @@ func directCalls(m *mon.M, c *Case, s *sut, rq *Request, alts []gen.SecReq, ref 
 	}
 	desc := func(what string, applies bool, usr interface{}, err error) string {
 		return fmt.Sprintf("%s: op=%s alternatives=%v registered=%v outcomes=%v calls=%s -> applies=%v principal=%v err=%v",
-			what, c.Desc.Ops[rq.Op].ID, alts, c.Registered, rq.Outcomes, callOrder(s.calls), applies, usr, err)
+			what, c.Desc.Ops[rq.Op].ID, alts, c.Registered, rq.Outcomes, callOrder(s.calls), applies, usr, err) + wireNote(c, rq)
 	}
 	// ---- the OR ----
 	route, rr := fresh()
@@ -1485,10 +1545,21 @@ func run(m *mon.M) {
 	r := m.Rand("structures")
 	n := m.N(60, 900)
 	builds := m.N(6, 24)
+	rr := m.Rand("real-structures")
 	for i := 0; i < n; i++ {
 		c := genCase(r, builds, m.N(64, 256))
 		m.Begin(c)
 		runCase(m, c)
+		if i%5 == 4 {
+			// the second sub-workload (its own PRNG stream: the scripted cases are what they were): some of the
+			// schemes are served by the library's authenticators, the credentials are spelled into the requests
+			c := genCase(rr, builds, m.N(64, 256))
+			if realize(rr, c) {
+				m.Class("real:api")
+				m.Begin(c)
+				runCase(m, c)
+			}
+		}
 	}
 }
 
